@@ -507,3 +507,20 @@ VARIANTS["C06"] += [
 VARIANTS["C16"] += [
     ("r8-stale-sample-in-result-loop", "whatshap/cli/genotype.py", "                        genotypes_list = variant_table.genotypes_of(s)\n", "                        genotypes_list = variant_table.genotypes_of(sample)\n", "C16.R8"),
 ]
+
+VARIANTS["C18"] += [
+    ("b-r1-lookup-guarded-by-count", "whatshap/priorityqueue.pyx", "\t\tcdef unordered_map[item_type,int].iterator it = self.positions.find(item)\n\t\tif it == self.positions.end():\n\t\t\treturn NULL\n", "\t\tif self.positions.count(item) == 0:\n\t\t\treturn NULL\n", "silent"),
+]
+VARIANTS["C13"] += [
+    ("b-r5-contig-declared-with-inverted-test", "whatshap/cli/unphase.py", "            if record.contig not in writer.header.contigs:\n                # No ##contig line for this contig: the reader's header learns about it only\n                # while parsing, the writer's copy of the header needs to be told as well\n                writer.header.contigs.add(record.contig)\n", "            if record.contig in writer.header.contigs:\n                pass\n            else:\n                writer.header.contigs.add(record.contig)\n", "silent"),
+]
+VARIANTS["C10"] += [
+    ("b-r6-earlier-region-test-positive-form", "whatshap/cli/haplotag.py", "                    if any(overlaps_region(alignment, s, e) for s, e in regions[:i]):\n                        # Already written when that earlier region was processed\n                        continue\n", "                    already_written = any(overlaps_region(alignment, s, e) for s, e in regions[:i])\n                    if already_written:\n                        continue\n", "silent"),
+]
+
+VARIANTS["C06"] += [
+    ("b-r12-overshoot-spelled-as-difference", "whatshap/variants.py", "                    return (reference_bases, query_pos + reference_bases - ref_pos)\n", "                    overshoot = ref_pos - reference_bases\n                    return (reference_bases, query_pos - overshoot)\n", "silent"),
+]
+VARIANTS["C12"] += [
+    ("b-r5-split-tests-right-side-first", "whatshap/cli/stats.py", "            if variant.position < split_left:\n                left_block.add(variant, phase)\n            elif variant.position > split_right:\n                right_block.add(variant, phase)\n", "            if variant.position > split_right:\n                right_block.add(variant, phase)\n            elif not variant.position >= split_left:\n                left_block.add(variant, phase)\n", "silent"),
+]
